@@ -15,7 +15,7 @@ pub const PROP: Prop = Prop {
     replay,
 };
 
-const OUTCOMES: [Outcome; 11] = [
+const OUTCOMES: [Outcome; 13] = [
     Outcome::Exit(0),
     Outcome::Exit(1),
     Outcome::Exit(2),
@@ -23,6 +23,8 @@ const OUTCOMES: [Outcome; 11] = [
     Outcome::Exit(255),
     Outcome::Signal(15),
     Outcome::Signal(9),
+    Outcome::Signal(34),
+    Outcome::Signal(64),
     Outcome::Errno(libc::ENOENT),
     Outcome::Errno(libc::EACCES),
     Outcome::Errno(libc::ENOEXEC),
@@ -56,7 +58,7 @@ fn spec(t: Tier) -> Spec {
     Spec {
         id: "C19",
         level: "model_checking",
-        rule: format!("every history of <= {} child outcomes over {{exit 0,1,2,125,255; SIGTERM, SIGKILL; exec failing with ENOENT, EACCES, ENOEXEC, ENOTDIR}} is injected (hook H2) into the real xargs_main run with -n1 (and -n2) over enough input; exit status and the number of invocations started must equal the reference function (0 / 123 / 124 / 125 / 126 / 127, stop at once, continue past 1..125); state = (sticky failed flag from hook H3 | terminated), transitions = outcomes; scale slice: histories of 300 and 1000 invocations, successful except for each outcome at the first, second, 150th, 256th, 257th, last-but-one and last position, combined with a second failure (exit 1 early, exit 255 last, exit 3 at #260); own errors (bad option values, unterminated quote, argument too long) must give 1; real-children slice: histories <= 3 over {{0,1,255,SIGTERM,SIGKILL,unlink-self,chmod-self}} with a real recorder child must give the same statuses", bounds(t)),
+        rule: format!("every history of <= {} child outcomes over {{exit 0,1,2,125,255; SIGTERM, SIGKILL, the real-time signals 34 and 64; exec failing with ENOENT, EACCES, ENOEXEC, ENOTDIR}} is injected (hook H2) into the real xargs_main run with -n1 (and -n2) over enough input; exit status and the number of invocations started must equal the reference function (0 / 123 / 124 / 125 / 126 / 127, stop at once, continue past 1..125); state = (sticky failed flag from hook H3 | terminated), transitions = outcomes; scale slice: histories of 300 and 1000 invocations, successful except for each outcome at the first, second, 150th, 256th, 257th, last-but-one and last position, combined with a second failure (exit 1 early, exit 255 last, exit 3 at #260); own errors (bad option values, unterminated quote, argument too long) must give 1; real-children slice: histories <= 3 over {{0,1,255,SIGTERM,SIGKILL,signal 34,unlink-self,chmod-self}} with a real recorder child must give the same statuses", bounds(t)),
         bound: json!({"history_len": bounds(t), "outcomes": OUTCOMES.iter().map(|o| oname(*o)).collect::<Vec<_>>()}),
         assumptions: vec!["child statuses 126..254 are not judged".into()],
         shards: 0,
@@ -245,7 +247,7 @@ fn own_errors(ctx: &mut Ctx) {
 fn real_children(ctx: &mut Ctx) {
     use std::io::Write;
     let maxlen = ctx.tier.pick(2, 3);
-    let script = ["0", "1", "255", "s15", "s9", "u", "x"];
+    let script = ["0", "1", "255", "s15", "s9", "s34", "u", "x"];
     let src = crate::engine::self_bin_dir().join("vrec");
     let copy = ctx.sbx.join(".mc-vrec-copy");
     let log = ctx.sbx.join(".mc-vrec.log");
@@ -291,6 +293,7 @@ fn real_children(ctx: &mut Ctx) {
                 }
                 "s15" => ch.push(Child::Signal(15)),
                 "s9" => ch.push(Child::Signal(9)),
+                "s34" => ch.push(Child::Signal(34)),
                 c => ch.push(Child::Exit(c.parse().unwrap())),
             }
         }
